@@ -751,6 +751,26 @@ else:
                         )
                         values[name] = validated_value
 
+                        # Numeric bounds declared on the field (ge/gt/le/lt), as Pydantic enforces them
+                        field = self.__class__.__model_fields__.get(name)
+                        bounds = getattr(field, "kwargs", None)
+                        if (
+                            bounds
+                            and isinstance(validated_value, (int, float))
+                            and not isinstance(validated_value, bool)
+                        ):
+                            for key, ok, text in (
+                                ("ge", lambda v, b: v >= b, "greater than or equal to"),
+                                ("gt", lambda v, b: v > b, "greater than"),
+                                ("le", lambda v, b: v <= b, "less than or equal to"),
+                                ("lt", lambda v, b: v < b, "less than"),
+                            ):
+                                bound = bounds.get(key)
+                                if bound is not None and not ok(validated_value, bound):
+                                    raise ValidationError(
+                                        f"Input should be {text} {bound}", name
+                                    )
+
             except ValidationError:
                 # Re-raise validation errors - don't suppress them
                 raise
